@@ -4,11 +4,16 @@
 //!        adfmc replay <file>
 
 mod bddx;
+mod c05;
+mod c06_07;
+mod c18;
+mod c20;
 mod fam;
 mod oracle;
 mod report;
 mod sem;
 mod src_adf;
+mod store;
 
 use report::*;
 
@@ -40,6 +45,11 @@ fn main() {
             let run = Run::new(&id, tier, seed);
             match id.as_str() {
                 "C01" | "C02" | "C03" | "C04" => sem::run_sem(&run),
+                "C05" => c05::run_c05(&run),
+                "C06" => c06_07::run_c06(&run),
+                "C07" => c06_07::run_c07(&run),
+                "C18" => c18::run_c18(&run),
+                "C20" => c20::run_c20(&run),
                 _ => machinery_error("unknown property id"),
             }
             run.finish();
@@ -52,6 +62,10 @@ fn main() {
             let once = |_: usize| -> Vec<(String, String)> {
                 match prop.as_str() {
                     "C01" | "C02" | "C03" | "C04" => sem::replay_sem(&prop, case),
+                    "C05" => c05::replay(case),
+                    "C06" | "C07" => c06_07::replay(&prop, case),
+                    "C18" => c18::replay(case),
+                    "C20" => c20::replay(case),
                     _ => machinery_error("replay: unknown property"),
                 }
             };
